@@ -12,6 +12,23 @@ def TablesOk (high low : List Str) (join : Str) : Prop :=
 instance (high low : List Str) (join : Str) : Decidable (TablesOk high low join) := by
   unfold TablesOk; infer_instance
 
+/-- the commands the property statement calls urgent protocol messages / bulk -/
+def urgentCore : List Str :=
+  [['P', 'O', 'N', 'G'], ['M', 'O', 'D', 'E'], ['K', 'I', 'C', 'K'], ['N', 'I', 'C', 'K'], ['P', 'A', 'S', 'S']]
+def bulkCore : List Str :=
+  [['P', 'R', 'I', 'V', 'M', 'S', 'G'], ['N', 'O', 'T', 'I', 'C', 'E'], ['J', 'O', 'I', 'N'], ['W', 'H', 'O'],
+   ['P', 'I', 'N', 'G']]
+def normalCore : List Str := [['Q', 'U', 'I', 'T'], ['P', 'A', 'R', 'T'], ['T', 'O', 'P', 'I', 'C'], ['C', 'A', 'P']]
+
+/-- the extracted tables put them where the statement expects them -/
+def ClassesOk : Prop :=
+  (∀ c ∈ urgentCore, classOf c = .high) ∧ (∀ c ∈ bulkCore, classOf c = .low) ∧
+  (∀ c ∈ normalCore, classOf c = .normal) ∧ Gen.rateLimitedCommand = ['J', 'O', 'I', 'N'] ∧
+  (∀ c ∈ [['P', 'R', 'I', 'V', 'M', 'S', 'G'], ['N', 'O', 'T', 'I', 'C', 'E'], ['T', 'A', 'G', 'M', 'S', 'G']],
+      c ∈ Gen.echoCommands)
+
+instance : Decidable ClassesOk := by unfold ClassesOk; infer_instance
+
 /-- `count x [m]`, kept opaque so that `omega` sees an atom -/
 def one (x m : Msg) : Nat := count x [m]
 
@@ -299,7 +316,7 @@ theorem deliver_pending' {s s1 : Irc} {m : Msg} {d : Delivery} (h : deliver s m 
 theorem takeAux_conserves : ∀ (fuel : Nat) (s : Irc), Conserves s (takeAux fuel s)
   | 0, s => Conserves.refl s
   | fuel + 1, s => by
-    unfold takeAux
+    unfold takeAux takeBody
     split
     · rename_i m rest hf
       split
